@@ -5,7 +5,13 @@ package main
 
 // Output format selection (C05): -f if given; otherwise, without -o, the (possibly virtual) extension of the FIRST
 // input: once a format is chosen no later input changes it.
+// Inputs (C03): every command-line input is resolved with FileMatch and merged, in command-line order, with its
+// inherited layers (MergeFileLayers) unless -P is given, in which case the file alone is merged (MergeFile).
 //@ func main() ()
-//@   property C05
+//@   property C05, C03
 //@   loop 1
 //@     transition (=> (not (= format@iter "")) (= format format@iter))                                      [C05]
+//@   at call Parser.MergeFile#1
+//@     assert (options.SkipParent opts)                                                                     [C03]
+//@   at call Parser.MergeFileLayers#1
+//@     assert (not (options.SkipParent opts))                                                               [C03]
